@@ -82,7 +82,8 @@ class Interp:
                     self.inherited.append(name)
             elif op == "func":
                 self.funcs.add(st[1])
-            elif op == "export":
+            elif op in ("export", "export_early"):
+                # EXPORT_FUNCTIONS may legally precede the definition of <eclass>_<phase> (older eclasses do that)
                 for ph in st[1]:
                     self.funcs.add(eclass + "_" + ph)
                     self.funcs.add(ph)
@@ -129,4 +130,8 @@ def render(stmts, eclass=None):
             for ph in st[1]:
                 out.append("%s_%s() { :; }" % (eclass, ph))
             out.append("EXPORT_FUNCTIONS " + " ".join(st[1]))
+        elif op == "export_early":
+            out.append("EXPORT_FUNCTIONS " + " ".join(st[1]))
+            for ph in st[1]:
+                out.append("%s_%s() { :; }" % (eclass, ph))
     return "\n".join(out) + "\n"
